@@ -23,12 +23,12 @@ def make_env(case):
     files = []
     texts = {}
     for path, items in case["files"].items():
-        texts[path] = pp.render_file(items)
+        texts[path] = pp.render_file(items, blank=case.get("blank", " "))
         files.append({"n": path, "items": items})
     fs = [{"p": p, "kind": "file"} for p in case["files"]]
     for p, kind in case.get("fs_extra", {}).items():
         fs.append({"p": p, "kind": kind})
-    env = {"files": files, "fs": fs, "incdirs": case.get("incdirs", []), "ign": bool(case.get("ign")),
+    env = {"files": files, "ftext": [{"n": p, "text": t} for p, t in texts.items()], "fs": fs, "incdirs": case.get("incdirs", []), "ign": bool(case.get("ign")),
            "strip": bool(case.get("strip")), "top": case["top"], "predef": case.get("predef", [])}
     hfiles = dict(texts)
     for p, kind in case.get("fs_extra", {}).items():
@@ -96,7 +96,7 @@ def validate_with_deviations(v, spec, records, by_id, tag, describe):
             for d in devs:
                 if d in fired:
                     f = finding_for_deviation(d)
-                    v.known_finding(f["id"], "%s (%s)" % (f["title"], d), describe(rid))
+                    v.known_finding(f["id"], "%s (%s)" % (f["title"], d), describe(rid), f.get("properties"))
                     break
         else:
             v.violation("%s: %s" % (describe(rid), "; ".join(reasons)[:600]), by_id.get(rid))
